@@ -118,8 +118,30 @@ def configs(tier, seed):
             seen.add(c["name"])
             res.append(c)
     res.extend(modeb_configs(tier, list(T_OF)))
+    res.extend(tinybox_configs(tier))
     res.append(dict(_cfg("T_HOO", "B", 1, 2), name="twin-T_HOO", twin=True, expect_fail="twin"))
     return res
+
+
+def tinybox_configs(tier):
+    """boxes that hold only a handful of binary64 numbers ([1e9, 1e9+1e-6]: 8 doubles; [0.1, 0.1+2^-50]: 64): after three to six
+    levels a cell's rounded midpoint equals its parent's and cells have zero width - 'arbitrary finite lo < hi' includes them; only
+    C01's clauses (no exception, no hang, finite points in the box) are claimed on such boxes (seed S-C01-10)"""
+    q = 0 if tier == "quick" else 1
+    out = []
+    for bi, box in enumerate(([1e9, 1e9 + 1e-6], [0.1, 0.1 + 2.0 ** -50])):
+        for algo in T_OF:
+            if algo == "VROOM":
+                continue
+            params = {"n": 200} if algo in ("SOO", "StoSOO", "SequOOL", "StroquOOL", "DOO") else {}
+            for part in ("B", "K3") + (("RB", "DB") if q else ()):
+                P = 40 if q == 0 else 120
+                c = _cfg(algo, part, 1, P + 1, dict(params), "-P%d+1-tinybox%d" % (P, bi))
+                c["name"] = "modeb-" + c["name"]
+                c["prefix"] = {"P": P, "k": 1, "seed": 0, "peak": 0.3, "noise": 0.25, "box": box}
+                c["cost"] = P
+                out.append(c)
+    return out
 
 
 class PointsInBox(Observer):
@@ -197,6 +219,15 @@ def modeb_configs(tier, algos, tag="modeb", parts=("B", "K3", "RB")):
                 c["prefix"] = {"P": P, "k": k, "seed": 6, "peak": 0.55, "noise": 0.25, "intbox": True}
                 c["cost"] = P * d
                 out.append(c)
+    # NumPy small-integer scalars as rewards
+    for algo in algos:
+        for (P, params) in ([(24, {})] if algo in ("T_HOO", "HCT", "VHCT") else MODEB.get(algo, [])[:1]):
+            k = 0  # no symbolic round: an object array holding NumPy integer scalars next to a proxy does not promote the way a typed array does
+            c = _cfg(algo, "B", 1, P + k, dict(params), "-P%d+%d-npuint8" % (P, k))
+            c["name"] = tag + "-" + c["name"]
+            c["prefix"] = {"P": P, "k": k, "seed": 3, "peak": 0.3, "noise": 0.5, "pattern": "np_uint8"}
+            c["cost"] = P
+            out.append(c)
     # rewards with a large constant offset (-2^20) relative to their spread
     for algo in algos:
         for (P, params) in ([(40, {})] if algo in ("T_HOO", "HCT", "VHCT") else MODEB.get(algo, [])[:1]):
